@@ -39,6 +39,7 @@ def run(ctx):
     ctx.run_rule("STc", r_round.rule_ST_c)
     ctx.run_rule("K4c", r_round.rule_K4_c)
     ctx.run_rule("K5c", r_round.rule_K5_c)
+    ctx.run_rule("XNc", r_round.rule_XN_c)
     ctx.run_rule("PB", r_cbudget.rule_PB)
     import r_asmsym
     ctx.run_rule("R1asm1", r_asmsym.rule_R1asm_single)
